@@ -52,6 +52,18 @@ CHECKS["C09"] = (MC,
     "Application scripts x failure point (the call, start_response, every iteration step, every write, close) x exception class (Exception, OSError subclass, BaseException subclass) x expose_tracebacks x log_socket_errors, plus a client disconnect before every step (send fails with EPIPE; or the I/O thread has already read the EOF) incl. the file-wrapper hand-over, are run on the real server; TLC evaluates the failure ladder: nothing escapes HTTPChannel.service(), one complete 500 then close before output, close without further bytes after output, no traceback unless exposed, iterable closed exactly once, wrapped file closed exactly once.",
     "DESIGN.md 3.4, 6 (C09)", _rs, "fault-point enumeration executed on the implementation, every outcome judged by TLC against the failure ladder of Response.tla")
 
+_fr = "trusted: TLC; spec/Framing.tla (reference RFC 9112 request framing written from the RFC text, with explicit freedom exactly where the property statement leaves a choice); the synchronous driver (real server object, parser, channel on fake sockets); streams are generated by the harness (grammar sentences, tables of malformed variants, byte-level mutations), judged one by one by TLC"
+_ft = "TLA+ reference transducer (Framing.tla) evaluated by TLC on every executed stream (batch trace validation); segmentation enumeration on the implementation"
+CHECKS["C01"] = (MC,
+    "Every stream of the corpus (sentences of the request grammar with all three body framings, trailers, chunk extensions, obs-fold, absolute/origin/asterisk targets; pipelines; trailing partial messages and garbage; tables of ambiguous or malformed framing headers, chunk syntax, header-section and request-line near-misses; single-byte replacement/deletion/duplication at every position of the framing-critical sentences) is fed to the real server in one piece, byte-at-a-time and under sampled cuts; TLC walks the recorded outcome (application calls with method, target, body; error responses; closure) against the reference framing function Msg of Framing.tla: each delivered message must be what RFC 9112 extracts at that position, faulty framing must be refused (or, where allowed, processed and then closed), and the byte after one message starts the next.",
+    "DESIGN.md 3.1, 6 (C01)", _fr, _ft)
+CHECKS["C02"] = (MC,
+    "For every stream of the corpus (incl. streams whose header/body limit is crossed at -1/0/+1) the real server is run under one-piece delivery, byte-at-a-time, every single cut and random k-cuts, one representative per sentence family also under up to 400 pairs of cuts; TLC requires every distinct outcome to conform to Framing.tla (which has no notion of read boundaries) and to equal the one-piece outcome.",
+    "DESIGN.md 6 (C02)", _fr, _ft)
+CHECKS["C06"] = (MC,
+    "The corpus under a sweep of max_request_header_size / max_request_body_size (tiny, size-1/size/size+1, defaults) and pumped sentences (each repeatable grammar position x10, x100, x1000) judged by TLC with Framing.tla: a message that reaches a limit or is malformed is never delivered, gets exactly one error response out of 400/413/431/501 fitting the fault, is followed by closure, and the server stops consuming. Totality (no exception, no hang - a watchdog interrupts code that does not return -, bounded consumption) is observed on all of these and on pumped sentences of 10^4..10^5 bytes. The refusal is also explored under concurrency (scheduler) with the Pipeline monitor.",
+    "DESIGN.md 6 (C06)", _fr + "; 'never raises / never hangs' is observed, not proved", _ft + "; watchdog for hangs; scheduler exploration for the refusal under concurrency")
+
 EXP = "exploration"
 _chan_note = "trusted: TLC (judging), the simulated kernel and scheduler shims (Lock/Condition/select/poll/pipe semantics), the independent response lexer wv/httpclient.py; schedule coverage on the code is bounded (all schedules with <= 1 pre-emption up to a limit, sampled beyond)"
 _chan_tech = "deterministic schedule exploration of the real server (bounded DFS + PCT/pre-emption sampling) with TLC trace validation against the TLA+ property monitor Pipeline.tla"
